@@ -393,7 +393,7 @@ func TestVerif_C08_Close(t *testing.T) {
 			{"Conn.Read", func() error { _, err := conn.Read(make([]byte, 100)); return err }, true},
 			{"Conn.Write", func() error { _, err := conn.Write([]byte("x")); return err }, true},
 			{"Conn.WriteToPair", func() error { _, err := conn.WriteToPair(1, []byte("x")); return err }, true},
-			{"AddRemoteCandidate", func() error { return a.AddRemoteCandidate(s.epCandidate(0, soloEpSpec{Typ: CandidateTypeHost})) }, false},
+			{"AddRemoteCandidate", func() error { return a.AddRemoteCandidate(s.epCandidate(0, soloEpSpec{Typ: CandidateTypeHost})) }, true}, // (a closed agent will never add it: the call must say so)
 			{"GetCandidatePairsStats", func() error { if n := len(a.GetCandidatePairsStats()); n != 0 { return fmt.Errorf("returned %d pairs", n) }; return nil }, false}, //nolint:err113
 			{"GetSelectedCandidatePair", func() error { p, err := a.GetSelectedCandidatePair(); if p != nil { return fmt.Errorf("selected pair still set") }; return err }, false}, //nolint:err113
 			{"Conn.GetCandidatePairsInfo", func() error { if n := len(conn.GetCandidatePairsInfo()); n != 0 { return fmt.Errorf("returned %d", n) }; return nil }, false}, //nolint:err113
